@@ -468,6 +468,12 @@ func GenMsg(t *rapid.T, o GenOpts) (*Msg, MsgInfo) {
 		if vi < nV {
 			v := vehs[vi]
 			vp.Vehicle = &v
+		} else if rapid.IntRange(0, 3).Draw(t, "emptyDescriptor") == 0 {
+			// a descriptor that is present and identifies nothing (id given as the empty string): still a vehicle without identity
+			vp.Vehicle = &VehDesc{ID: P("")}
+			if rapid.Bool().Draw(t, "emptyLabelToo") {
+				vp.Vehicle.Label = P("")
+			}
 		}
 		if vpTrip[vi] {
 			d := trips[tripOfVeh[vi]]
